@@ -423,6 +423,25 @@ for _explicit in (False, True):
         defined_props=["C14"])
 
 
+# a year in which programs are adjustable but which the constraint does not name is skipped -- and ONLY that year: the loop goes on to the years after it
+def _env_total_other_year(it):
+    import numpy as np
+    from pyvc.interp import PyObjV
+    from pyvc.core import LArr
+    from pyvc import source
+
+    self = PyObjV("TotalSpendConstraint", source.load("optimization"), {"t": np.array([2021.0]), "total_spend": LArr(1, lambda i: z3.Real("given_total")), "budget_factor": LArr(1, lambda i: z3.Real("budget_factor"))})
+    return {"self": self, "instructions": PyObjV("ProgramInstructions", source.load("programs"), {"alloc": {}}), "optimization": None,
+            "hard_constraints": {"programs": {2020.0: ["a"], 2021.0: ["a"]}, "initial_total_spend": {}}, "t": 2020.0, "progs": ["a"]}
+
+
+CONTRACTS["optimization:TotalSpendConstraint.get_hard_constraint#total_of_a_year_the_constraint_does_not_name"] = dict(
+    schema=schema, fragment={"iter": "hard_constraints['programs'].items()", "body_contains": "budget_factor"}, make_env=_env_total_other_year,
+    ensures=[("C14.a_year_the_constraint_does_not_name_gets_no_required_total", "len(hard_constraints['initial_total_spend']) == 0"),
+             ("C14.and_the_years_after_it_are_still_considered", "LOOP_EXIT == 'continue'")],
+    defined_props=["C14"])
+
+
 # ---- SpendingPackageAdjustment.get_total_spend / set_total_spend (C14: "spending packages keep ... the package total within its limits";
 # TotalSpendConstraint.constrain_instructions writes a package's rescaled amount back through set_total_spend): for two member programs
 # with spending series at the package year, the package total afterwards IS the amount given and the members keep their shares
@@ -521,3 +540,25 @@ for _e in ((True, True), (False, True), (False, False)):
                   "len(result) == 2 and result[0] == %s and result[1] == %s" % ("ini[0]" if _e[0] else "implied_spending_2020_0", "ini[1]" if _e[1] else "implied_spending_2025_0")),
                  ("C15.the_instructions_are_asked_for_exactly_the_years_without_an_explicit_value", "[a[0] for a in ASKED] == %r and all(a[1] is instructions for a in ASKED)" % [y for y, x in zip((2020.0, 2025.0), _e) if not x])],
         defined_props=["C15"])
+
+
+def _replay_later_year(model, contract):
+    """replay on the REAL TotalSpendConstraint.get_hard_constraint: program a is adjustable in 2020 and 2021, program b in 2021; the constraint names 2021 only"""
+    import atomica as at
+    import atomica.optimization as ao
+
+    class _Opt:
+        pass
+
+    opt = _Opt()
+    opt.adjustments = [ao.SpendingAdjustment("a", [2020.0, 2021.0], "abs", [0.0, 0.0], [80.0, 80.0]), ao.SpendingAdjustment("b", 2021.0, "abs", 0.0, 80.0)]
+    instr = at.ProgramInstructions(start_year=2020, alloc={"a": at.TimeSeries([2020.0, 2021.0], [50.0, 90.0]), "b": at.TimeSeries(2021.0, 70.0)})
+    hc = ao.TotalSpendConstraint(total_spend=100.0, t=2021.0).get_hard_constraint(opt, instr)
+    years = sorted(float(t) for t in hc["initial_total_spend"])
+    pre = dict(adjustable={"a": [2020.0, 2021.0], "b": [2021.0]}, constraint=dict(t=2021.0, total_spend=100.0))
+    if years != [2021.0]:
+        return dict(verdict="violates", detail="the constraint names 2021, required totals were recorded for %r" % years, prestate=pre)
+    return dict(verdict="holds", detail="a required total is recorded for 2021 and not for 2020", prestate=pre)
+
+
+CONTRACTS["optimization:TotalSpendConstraint.get_hard_constraint#total_of_a_year_the_constraint_does_not_name"]["replay_hook"] = _replay_later_year
